@@ -69,6 +69,84 @@ fn regressions(id: &str) -> Vec<ScriptBatch> {
     }
 }
 
+/// Bounded-exhaustive script sets: every script of at most two bytes, and the complete one-edit neighbourhood of
+/// 23 canonical templates (every substitution of every byte by every value, every one-byte insertion at every
+/// position, every truncation) - about 600 000 scripts per coin.
+fn neighbourhood(full: bool) -> Vec<Vec<u8>> {
+    let mut out: Vec<Vec<u8>> = vec![vec![]];
+    for a in 0..=255u8 {
+        out.push(vec![a]);
+        for b in 0..=255u8 {
+            out.push(vec![a, b]);
+        }
+    }
+    let h20: Vec<u8> = (0..20u8).map(|i| i.wrapping_mul(37).wrapping_add(0x11)).collect();
+    let h32: Vec<u8> = (0..32u8).map(|i| i.wrapping_mul(29).wrapping_add(0x07)).collect();
+    let k33: Vec<u8> = std::iter::once(0x02u8).chain(h32.iter().cloned()).collect();
+    let k65: Vec<u8> = std::iter::once(0x04u8).chain(h32.iter().cloned()).chain(h32.iter().rev().cloned()).collect();
+    let cat = |parts: &[&[u8]]| -> Vec<u8> { parts.concat() };
+    let mut templates: Vec<Vec<u8>> = vec![
+        cat(&[&[0x76, 0xa9, 0x14], &h20, &[0x88, 0xac]]),
+        cat(&[&[0xa9, 0x14], &h20, &[0x87]]),
+        cat(&[&[0x21], &k33, &[0xac]]),
+        cat(&[&[0x41], &k65, &[0xac]]),
+        cat(&[&[0x00, 0x14], &h20]),
+        cat(&[&[0x00, 0x20], &h32]),
+        cat(&[&[0x51, 0x20], &h32]),
+        cat(&[&[0x52, 0x28], &h32, &h20[..8]]),
+        cat(&[&[0x60, 0x02, 0xab, 0xcd]]),
+        cat(&[&[0x51, 0x21], &k33, &[0x51, 0xae]]),
+        cat(&[&[0x6a, 0x05], b"hello"]),
+        cat(&[&[0x6a, 0x4c, 0x05], b"hello"]),
+        cat(&[&[0x6a, 0x4d, 0x05, 0x00], b"hello"]),
+        cat(&[&[0x6a, 0x4e, 0x05, 0x00, 0x00, 0x00], b"hello"]),
+    ];
+    let p75: Vec<u8> = (0..75u8).map(|i| b'a' + i % 26).collect();
+    let p76: Vec<u8> = (0..76u8).map(|i| b'A' + i % 26).collect();
+    templates.push(cat(&[&[0x52, 0x21], &k33, &[0x21], &k33, &[0x21], &k33, &[0x53, 0xae]]));
+    templates.push(cat(&[&[0x76, 0xa9, 0x4c, 0x14], &h20, &[0x88, 0xac]]));
+    templates.push(cat(&[&[0xa9, 0x4d, 0x14, 0x00], &h20, &[0x87]]));
+    templates.push(cat(&[&[0x4e, 0x21, 0x00, 0x00, 0x00], &k33, &[0xac]]));
+    templates.push(cat(&[&[0x6a, 0x4b], &p75]));
+    templates.push(cat(&[&[0x6a, 0x4c, 0x4c], &p76]));
+    templates.push(cat(&[&[0x51, 0x21], &k33, &[0x21], &k33, &[0x52, 0xae]]));
+    templates.push(cat(&[&[0x60, 0x28], &h32, &h20[..8]]));
+    templates.push(cat(&[&[0x61, 0x76, 0xa9, 0x14], &h20, &[0x88, 0x61, 0xac]]));
+    let _ = full;
+    for t in &templates {
+        out.push(t.clone());
+        for pos in 0..t.len() {
+            out.push(t[..pos].to_vec());
+            for v in 0..=255u8 {
+                if v != t[pos] {
+                    let mut m = t.clone();
+                    m[pos] = v;
+                    out.push(m);
+                }
+            }
+        }
+        for pos in 0..=t.len() {
+            for v in 0..=255u8 {
+                let mut m = t.clone();
+                m.insert(pos, v);
+                out.push(m);
+            }
+        }
+    }
+    out
+}
+
+fn neighbourhood_batches(coins: &[Coin], full: bool) -> Vec<ScriptBatch> {
+    let all = neighbourhood(full);
+    let mut v = Vec::new();
+    for c in coins {
+        for chunk in all.chunks(1024) {
+            v.push(ScriptBatch { coin: *c, scripts: chunk.to_vec() });
+        }
+    }
+    v
+}
+
 fn run_property(id: &str, eng: &Engine, a: &Args) -> (&'static str, Vec<&'static str>) {
     let tier = a.tier;
     let q = tier == Tier::Quick;
@@ -77,26 +155,38 @@ fn run_property(id: &str, eng: &Engine, a: &Args) -> (&'static str, Vec<&'static
         let idc = id.to_string();
         eng.enumerate("fixed-defect-regressions", reg, move |b| check_script_batch(b, &idc));
     }
+    // bounded-exhaustive part of the script properties
+    let nb_coins: Vec<Coin> = match id {
+        "C05" => vec![Coin::Bitcoin, Coin::Testnet3],
+        "C06" => FORK_COINS.to_vec(),
+        "C14" => ALL_COINS.to_vec(),
+        "C16" => vec![Coin::Bitcoin, Coin::Litecoin],
+        _ => vec![],
+    };
+    if !nb_coins.is_empty() {
+        let idc = id.to_string();
+        eng.enumerate("short-scripts-and-template-neighbourhoods", neighbourhood_batches(&nb_coins, !q), move |b| check_script_batch(b, &idc));
+    }
     match id {
         "C05" => {
             let n = if q { 2400 } else { 80_000 };
             eng.explore("per-script", scaled(n, a), move || batch(vec![Coin::Bitcoin, Coin::Testnet3], gen::any_script(tier), 256), |b| check_script_batch(b, "C05"));
-            ("E2: batches of up to 256 scripts from the full grammar evaluated in-process by eval_from_bytes(bytes, 0x00|0x6f); each verdict (type, address, OP_RETURN payload) compared with the three-valued reference classifier and the address round-trip decoder. Non-trivial script = template / near miss / witness lookalike; distinct by script bytes.", vec![])
+            ("E2: batches of up to 256 scripts from the full grammar evaluated in-process by eval_from_bytes(bytes, 0x00|0x6f); each verdict (type, address, OP_RETURN payload) compared with the three-valued reference classifier and the address round-trip decoder. Non-trivial script = template / near miss / witness lookalike; distinct by script bytes. Bounded-exhaustive part 'short-scripts-and-template-neighbourhoods': every script of at most two bytes and the complete one-edit neighbourhood (every one-byte substitution, insertion, truncation) of 23 canonical templates on each coin of the property.", vec![])
         }
         "C06" => {
             let n = if q { 2400 } else { 80_000 };
             eng.explore("per-script", scaled(n, a), move || batch(FORK_COINS.to_vec(), prop_oneof![4 => gen::any_script(tier), 3 => gen::template_any_push(tier), 2 => gen::mutated_template(tier)].boxed(), 256), |b| check_script_batch(b, "C06"));
-            ("E2: batches of up to 256 scripts evaluated in-process with each fork coin's version byte; type, address and OP_RETURN payload compared with the strict reference tokeniser/template model. Non-trivial = contains PUSHDATA/NOP or is a template; distinct by script bytes.", vec![])
+            ("E2: batches of up to 256 scripts evaluated in-process with each fork coin's version byte; type, address and OP_RETURN payload compared with the strict reference tokeniser/template model. Non-trivial = contains PUSHDATA/NOP or is a template; distinct by script bytes. Bounded-exhaustive part 'short-scripts-and-template-neighbourhoods': every script of at most two bytes and the complete one-edit neighbourhood (every one-byte substitution, insertion, truncation) of 23 canonical templates on each coin of the property.", vec![])
         }
         "C16" => {
             let n = if q { 1600 } else { 20_000 };
             eng.explore("payload-extraction", scaled(n, a), move || batch(ALL_COINS.to_vec(), gen::c16_script(tier), 256), |b| check_script_batch(b, "C16"));
-            ("E2: OP_RETURN single-push scripts in every push encoding and payload class evaluated in-process on all 8 coins; extracted payload compared with the pushed bytes (valid UTF-8 only on bitcoin/testnet3, lossy on fork coins).", vec![])
+            ("E2: OP_RETURN single-push scripts in every push encoding and payload class evaluated in-process on all 8 coins; extracted payload compared with the pushed bytes (valid UTF-8 only on bitcoin/testnet3, lossy on fork coins). Bounded-exhaustive part 'short-scripts-and-template-neighbourhoods': every script of at most two bytes and the complete one-edit neighbourhood (every one-byte substitution, insertion, truncation) of 23 canonical templates on each coin of the property.", vec![])
         }
         "C14" => {
             let n = if q { 4000 } else { 200_000 };
             eng.explore("totality", scaled(n, a), move || batch(ALL_COINS.to_vec(), prop_oneof![3 => gen::any_script(tier), 2 => gen::many_pushes(tier), 2 => gen::token_script(tier), 1 => gen::raw_script(tier), 1 => gen::leading_opcode(tier)].boxed(), 256), |b| check_script_batch(b, "C14"));
-            ("E2: catch_unwind around eval_from_bytes for batches of hostile scripts (truncated pushes, huge PUSHDATA4, all leading opcodes, hundreds to thousands of pushes, raw bytes) on all 8 coins, debug assertions and overflow checks on; any panic or Error(..) verdict is a violation.", vec![])
+            ("E2: catch_unwind around eval_from_bytes for batches of hostile scripts (truncated pushes, huge PUSHDATA4, all leading opcodes, hundreds to thousands of pushes, raw bytes) on all 8 coins, debug assertions and overflow checks on; any panic or Error(..) verdict is a violation. Bounded-exhaustive part 'short-scripts-and-template-neighbourhoods': every script of at most two bytes and the complete one-edit neighbourhood (every one-byte substitution, insertion, truncation) of 23 canonical templates on each coin of the property.", vec![])
         }
         "C01" => {
             let n = if q { 600 } else { 20_000 };
